@@ -1,4 +1,7 @@
 pub mod c02;
+pub mod c03;
+pub mod c13;
+pub mod stack;
 pub mod c14;
 pub mod common;
 
@@ -9,13 +12,15 @@ use crate::rng::Rng;
 use crate::scenario::Scenario;
 use common::GenStats;
 
-pub const PROPS: &[&str] = &["C02", "C14"];
+pub const PROPS: &[&str] = &["C02", "C03", "C13", "C14"];
 
 pub fn generate(prop: &str, seed: u64, tier: Tier, stats: &mut GenStats) -> Scenario {
     let mut rng = Rng::new(seed);
     let mut sc = match prop {
         "C02" => c02::generate(&mut rng, tier, stats),
         "C14" => c14::generate(&mut rng, tier, stats),
+        "C03" => c03::generate(&mut rng, tier, stats),
+        "C13" => c13::generate(&mut rng, tier, stats),
         _ => panic!("unknown property {}", prop),
     };
     sc.seed = seed;
@@ -27,6 +32,8 @@ pub fn check(sc: &Scenario, env: &mut Env) -> Result<Outcome, HarnessError> {
     match sc.prop.as_str() {
         "C02" => c02::check(sc, env),
         "C14" => c14::check(sc, env),
+        "C03" => c03::check(sc, env),
+        "C13" => c13::check(sc, env),
         p => Err(HarnessError(format!("unknown property {}", p))),
     }
 }
